@@ -3,6 +3,7 @@ TECH = "contract-based deductive verification: VCs generated from the AST of the
 PROPS = {
     "C11": {"modules": ["contracts.vhd", "contracts.vhdx", "contracts.vmdk", "contracts.vdi", "contracts.hdd", "contracts.c11"], "level": "proof", "bounded_from": ["contracts.c11"],
             "technique": TECH + "; loop variants without well-formedness assumptions; finite-universe variants for reference walks"},
+    "C12": {"modules": ["contracts.gates", "contracts.gates_text"], "level": "proof", "technique": TECH + "; exceptional postconditions (normal return => accept set) in gate mode"},
     "C13": {"modules": ["contracts.vhd", "contracts.vhdx", "contracts.vmdk", "contracts.vdi", "contracts.hdd", "contracts.c13"], "level": "proof", "bounded_from": ["contracts.c13"],
             "technique": TECH + "; ghost I/O-cost postconditions; unbounded-integer arithmetic for wide offsets"},
     "C10": {"modules": ["contracts.vmdk_c10", "contracts.vmdk", "contracts.hdd"], "level": "proof", "technique": TECH + "; regex language inclusion for the extent grammar"},
